@@ -1201,6 +1201,53 @@ def _try_chain_impl(blocks, start, dest_local):
     return None
 
 
+def _follow_value(f, op):
+    """the constant (fn item) a callable operand holds: through copies, moves, casts, reborrows and the slots of closure
+    environments it was captured in (None when that is not a single chain)"""
+    for _ in range(10):
+        if op.get("k") == "const":
+            return op
+        if op.get("k") not in ("copy", "move"):
+            return None
+        pl = op["place"]
+        fl = [e for e in pl["proj"] if e["k"] != "deref"]
+        if len(fl) == 1 and fl[0]["k"] == "field" and str(fl[0].get("adt", "")).startswith("closure:"):
+            env, found = pl["local"], None
+            for _ in range(6):
+                de = f.whole_defs(env)
+                if len(de) != 1 or de[0][0] != "stmt":
+                    break
+                rve = de[0][1]
+                if rve["k"] == "use" and rve["op"].get("k") in ("copy", "move") and not rve["op"]["place"]["proj"]:
+                    env = rve["op"]["place"]["local"]
+                    continue
+                if rve["k"] == "ref" and not [e for e in rve["place"]["proj"] if e["k"] != "deref"]:
+                    env = rve["place"]["local"]
+                    continue
+                if rve["k"] == "aggregate" and rve["kind"].get("agg") == "closure" and fl[0]["idx"] < len(rve["ops"]):
+                    found = rve["ops"][fl[0]["idx"]]
+                break
+            if found is None:
+                return None
+            op = found
+            continue
+        if fl:
+            return None
+        ds = f.whole_defs(pl["local"])
+        if len(ds) != 1 or ds[0][0] != "stmt":
+            return None
+        rv = ds[0][1]
+        if rv["k"] == "use":
+            op = rv["op"]
+        elif rv["k"] == "cast":
+            op = rv["a"]
+        elif rv["k"] == "ref":
+            op = {"k": "copy", "place": rv["place"]}
+        else:
+            return None
+    return None
+
+
 class Inliner:
     def __init__(self, program, known_fns, known_direct_closures=()):
         self.prog = program
@@ -1512,18 +1559,7 @@ class Inliner:
                 t = b["term"]
                 if b["cleanup"] or t["k"] != "call" or "indirect" not in t["callee"]:
                     continue
-                op = t["callee"]["indirect"]
-                for _ in range(6):
-                    if op.get("k") == "const":
-                        break
-                    if op.get("k") not in ("copy", "move") or op["place"]["proj"]:
-                        op = None
-                        break
-                    ds = f.whole_defs(op["place"]["local"])
-                    if len(ds) != 1 or len(f.defs().get(op["place"]["local"], [])) != 1 or ds[0][0] != "stmt" or ds[0][1]["k"] not in ("use", "cast"):
-                        op = None
-                        break
-                    op = ds[0][1]["op"] if ds[0][1]["k"] == "use" else ds[0][1]["a"]
+                op = _follow_value(f, t["callee"]["indirect"])
                 if op is not None and op.get("k") == "const" and "fn" in op:
                     todo.append((bi, op))
             if not todo:
